@@ -476,7 +476,18 @@ fn step(env: &mut Env, s: &Value) -> Value {
                     json!({"result": "none"})
                 } else {
                     let node = decs[pick % decs.len()];
-                    let removed = t.tree.remove_all_descendants(node).map_err(|e| e.to_string());
+                    let removed = if s["how"].as_str() == Some("children") {
+                        // child by child through try_remove_child: the node must end up as a terminal again
+                        let labels: Vec<usize> = t.tree.children(node).map(|e| e.label).collect();
+                        let mut n = 0;
+                        for l in labels {
+                            n += t.tree.num_nodes(t.tree.child(node, l).expect("driver: child").target_idx) as i32;
+                            t.tree.try_remove_child(node, l).expect("driver: try_remove_child");
+                        }
+                        Ok(n)
+                    } else {
+                        t.tree.remove_all_descendants(node).map_err(|e| e.to_string())
+                    };
                     let mut grown = Vec::new();
                     if let Some((dec, t0, t1)) = regrow {
                         let first = t.tree.terminal_indices().find(|i| *i != node);
